@@ -23,7 +23,7 @@ def pick_paths(r, ast, n):
 
 class C15(Prop):
     pid = "C15"
-    fields = {"jsonset": ["err", "result"], "yamlset": ["err"], "obs": ["outcome", "errors", "logs", "writes", "line"], "fs": "*"}
+    fields = {"jsonset": ["err", "result"], "yamlset": ["err"], "obs": ["outcome", "errors", "logs", "writes", "~line"], "fs": "*"}
     rule = ("random JSON documents x existing simple paths (object members incl. keys with dots, array elements, nested) x "
             "placeholders (shorter/longer than the value, non-string, needing JSON escapes, containers): single Any matcher through "
             "the matcher itself AND on the caller's own []byte (buffer compared before/after), plus matcher SEQUENCES (Any with "
